@@ -7,6 +7,8 @@ LEVEL_NOTE = ("Trusted: Coq 8.16.1 kernel (vm_compute inside proofs, no native_c
  "(parsing, printing, driving the API); the hand-written model is tied to the code by a differential correspondence run on every check "
  "(sampled unless evidence says exhaustive). Modelled not verified: external crates, Rust std, OS.")
 CHECKS = {
+ "C05": dict(text="Coq theorems, for EVERY request reader and EVERY response writer (Section variables) and all states / all operation sequences: misuse yields the documented error and changes nothing; the wire grows exactly by the prescribed bytes; nothing after shutdown (induction over sequences); finals sent <= requests started (trace invariant); interim keeps owed; 5xx closes; failed-write accounting; auto 100-continue; a failed body read never re-opens head reading (repair of D16, pre-fix refuted); oracle soundness. Tied to the code by driving a real HttpConn over loop-back with the concrete instantiation (head + request + response models), comparing every call's result, both states, is_ready and the exact wire bytes.",
+   technique="Rocq/Coq proof (state-machine contract, parametric in reader/writer; invariants by induction over operation sequences) + extracted-model differential correspondence on a real HttpConn", ref="DESIGN.md section 6 C05"),
  "C14": dict(text="Coq theorems: every HeaderList operation of the model (transcribed from src/headers.rs, incl. the index loop of remove_all over Vec::remove) equals the ordered case-insensitive multimap specification for all states and all operation sequences (induction); ASCII invariant for all reachable collections; tied to the code by running servlin::HeaderList and every AsciiString constructor against the extracted model and the extracted oracle.",
    technique="Rocq/Coq proof (refinement to a filter-based multimap spec, induction over operation sequences) + extracted-model differential correspondence", ref="DESIGN.md section 6 C14"),
  "C20": dict(text="The finite tables (status-named constructors, the 28 error variants with is_server_error / description / response mapping, the 5xx close rule) are REGENERATED from the repository source by a translator on every run; Coq theorems over the generated tables prove code=name for every constructor, the documented class for every error variant and payload-independence of every error response for ALL payloads; the translator is validated exhaustively against the real code (every constructor, every variant x payloads, every status 100..999 through a real connection).",
